@@ -5,6 +5,7 @@ CONSTANTS MaxLen = 3
           MaxTorn = 1
           PageBits = 2
           Cadence = "free"
+          Role = "writer"
           TruncOnOpen = FALSE
           Mut = "none"
 VIEW NoHist
